@@ -35,11 +35,16 @@ def explore(ck: Check, n_tables: int, slow_formats: bool) -> None:
         tdp = Path(td)
         for i in range(n_tables):
             fixed = i % 3 == 0
-            t = gen_table(rng, fixed_safe=fixed, n_rows=rng.randint(0, 8))
+            # a few long tables: the fixed-width copies are larger than any reader's buffer (32768 bytes for the EBCDIC default)
+            big = i % 20 == 3
+            fixed = fixed or big
+            # headers that need cleaning, some with a distinct twin that IS the cleaned spelling ("unit cost" / "unit_cost")
+            t = gen_table(rng, fixed_safe=fixed, n_rows=rng.randint(700, 1500) if big else rng.randint(0, 8),
+                          cleaning_headers=(not fixed and i % 2 == 1))
             second = gen_table(rng, n_rows=rng.randint(1, 3))
-            inp = {"table": t}
+            inp = {"table": t if not big else t[:3] + [["...", f"{len(t) - 1} rows"]]}
             want = [("", t[0], t[1:])]
-            ck.case(str(t), feature="table/" + ("fixed-safe" if fixed else "free-text"))
+            ck.case(str(t), feature="table/" + ("long" if big else "fixed-safe" if fixed else "free-text"))
             results: dict[str, Any] = {}
 
             def run(label: str, fn) -> None:
@@ -81,6 +86,8 @@ def explore(ck: Check, n_tables: int, slow_formats: bool) -> None:
                 p_e = tdp / f"t{i}.ebc"
                 write_ebcdic(p_e, t, widths)
                 run("ebcdic", lambda: observe_with_schema(COBOL_EBCDIC_File(p_e, recfm_class=E.RECFM_F, lrecl=sum(widths)), cschema, t[0], strip=True))
+                # the default record reader (no RECFM given): the record length comes from the schema
+                run("ebcdic-default", lambda: observe_with_schema(COBOL_EBCDIC_File(p_e), cschema, t[0], strip=True))
             # ---- oracle: every format shows the table
             for label, got in results.items():
                 multi = label in ("xlsx", "ods", "numbers")
@@ -95,11 +102,13 @@ def explore(ck: Check, n_tables: int, slow_formats: bool) -> None:
                     ck.fail(f"format:{label}", f"{label}: the {diff} read back differ from the table written", {**inp, "format": label,
                                                                                                                "read": str(got)[:300]})
             # ---- model tie: the heading-row observation of the CSV file is Facade.observe of the table
-            if not isinstance(results.get("csv"), str):
+            if big:
+                pass
+            elif not isinstance(results.get("csv"), str):
                 reqs.append(f"FAC observe {delivered_token([('', t)])}")
                 impl.append(obs_token(results["csv"]))
                 inputs.append(inp)
-            if not isinstance(results.get("xlsx"), str):
+            if not big and not isinstance(results.get("xlsx"), str):
                 reqs.append(f"FAC observe {delivered_token([('First', t), ('Second', second)])}")
                 impl.append(obs_token(results["xlsx"]))
                 inputs.append({**inp, "second": second})
